@@ -75,14 +75,21 @@ def alias_case(ctx, struct, ops, cplx=False, subset='all', prestate='sorted', wr
         return
     if name == 'as_completely_blocked':
         R = res[1]
+    writes = C.WRITES
     if sc.inplace:
         ctx.prove(R is sc.operands[0], f'{tag}: in-place method works on self')
     elif not sc.owns:
+        # documented shallow copy: entries may be shared, so only the writes that never touch an existing block are applied;
+        # they must leave every other tensor as it is (and valid)
         ctx.note('documented_shallow')
-        return
+        writes = C.STRUCTURAL_WRITES
+        if any(R is o for o in operands):
+            return  # as_completely_blocked may return self
     else:
         ctx.prove(all(R is not o for o in operands), f'{tag}: returns a new object')
-    C.write_through(ctx, W, R, tag, check, groups=write_groups)
+    C.write_through(ctx, W, R, tag, check, writes=writes, groups=write_groups)
+    for k, o in enumerate(watched):
+        C.check_invariants(ctx, o, f'{tag}, after the writes through the result: {"deep copy" if o is deep else "operand"} still valid', sanity=False)
 
 
 def CASES(tier, seed):
@@ -107,10 +114,10 @@ def CASES(tier, seed):
     for si, st in enumerate(P1.structs_B(tier, seed)):
         if tier == 'quick' and si not in (0, 1, 2, 4, 7, 8, 9):
             continue
-        for ci, chunk in enumerate(P1._chunks(opsB, 14)):
+        for ci, chunk in enumerate(P1._chunks(opsB, 14 if (tier == 'quick' or st['rank'] <= 3) else 8)):
             cases.append(dict(name=f"B[{si},mod={st['mods']},rank={st['rank']}]ops{ci}:{P1._opsname(chunk)}",
                               fn='alias_case', params=dict(struct=st, ops=chunk, cplx=(si % 2 == 1), subset='draw' if si % 3 else 'all',
-                                                           prestate=['sorted', 'reversed'][si % 2], write_groups=2 if tier == 'quick' else 4),
+                                                           prestate=['sorted', 'reversed'][si % 2], write_groups=3 if tier == 'quick' else 4),
                               opts=OB))
     slow = float(__import__('os').environ.get('VERIF_SLOW', '1') or 1)  # development on a loaded machine only
     if slow != 1:
